@@ -205,7 +205,49 @@ def rule_b(ctx, ix, hub):
                       and st.lineno < lp.lineno and isinstance(st.value, (ast.List, ast.Call))]
             if defs and resets and unparse(defs[-1].value) == '%s._queue' % s and resets[-1].lineno > defs[-1].lineno:
                 detached = True
-            if not detached:
+            derived = None
+            for st in walk_no_nested(node):
+                if isinstance(st, ast.Assign) and st.lineno < lp.lineno and st.lineno > y.lineno and isinstance(st.targets[0], ast.Tuple) \
+                        and isinstance(st.value, ast.Tuple) and len(st.targets[0].elts) == len(st.value.elts) == 2 \
+                        and unparse(st.targets[0].elts[0]) == it.id and unparse(st.targets[0].elts[1]) == '%s._queue' % s \
+                        and isinstance(st.value.elts[1], ast.List) and not st.value.elts[1].elts:
+                    v0 = unparse(st.value.elts[0]).replace(' ', '')
+                    if v0 in ('list(%s._queue)' % s, 'tuple(%s._queue)' % s, '%s._queue[:]' % s, '%s._queue.copy()' % s):
+                        detached = True
+                    elif '%s._queue' % s in v0:
+                        derived = unparse(st.value.elts[0])
+            if not detached and derived is None:
+                # the flushed list built by a loop over the queue (a spliced helper): a plain copy loop detaches, a filtered one drops messages
+                names_ = {it.id}
+                for _ in range(4):
+                    for st in walk_no_nested(node):
+                        if isinstance(st, ast.Assign) and isinstance(st.value, ast.Name):
+                            for t_ in st.targets:
+                                if isinstance(t_, ast.Name) and t_.id in names_:
+                                    names_.add(st.value.id)
+                        elif isinstance(st, ast.Assign) and isinstance(st.targets[0], ast.Tuple) and isinstance(st.value, ast.Tuple):
+                            for t_, v_ in zip(st.targets[0].elts, st.value.elts):
+                                if isinstance(t_, ast.Name) and t_.id in names_ and isinstance(v_, ast.Name):
+                                    names_.add(v_.id)
+                from ..util import parent_map as _pm
+                pm_ = _pm(node)
+                for l2 in [x for x in walk_no_nested(node) if isinstance(x, ast.For) and unparse(x.iter) == '%s._queue' % s and x is not lp]:
+                    for c_ in calls_in(l2):
+                        if call_name(c_) == 'append' and isinstance(c_.func.value, ast.Name) and c_.func.value.id in names_:
+                            cur, cond_ = pm_.get(id(c_)), False
+                            while cur is not None and cur is not l2:
+                                cond_ = cond_ or isinstance(cur, ast.If)
+                                cur = pm_.get(id(cur))
+                            if cond_:
+                                derived = 'a selection of %s._queue (appended under a test)' % s
+                            else:
+                                resets_ = [st for st in walk_no_nested(node) if isinstance(st, ast.Assign) and st.lineno < lp.lineno and st.lineno > l2.lineno and any(
+                                    unparse(t_) == '%s._queue' % s for T_ in st.targets for t_ in (T_.elts if isinstance(T_, ast.Tuple) else [T_]))]
+                                detached = detached or bool(resets_)
+            if not detached and derived:
+                why = ('the flushed list `%s` is computed from the queue, it is not the queue: messages that were queued while paused can '
+                       'be dropped or reordered before they are delivered' % derived)
+            elif not detached:
                 why = 'the loop variable %s is not a detached snapshot of the queue' % it.id
         else:
             why = 'the flush iterates %s directly and empties the queue only afterwards' % unparse(it)
@@ -218,8 +260,8 @@ def rule_b(ctx, ix, hub):
         detached = False
         why = 'the flush takes the messages one by one from the shared queue, which handlers (through their own delay blocks) flush again'
     ctx.ob(R, f.construct, 'the flush delivers from a detached snapshot; the shared queue is emptied first', detached,
-           detail='Hub.delay_callbacks: %s - a handler that opens a delay block (or broadcasts) during the flush re-delivers '
-                  'the same messages or delivers the remaining ones out of order, nested in the current delivery' % why, where=where(f, lp))
+           detail='Hub.delay_callbacks: %s%s' % (why, '' if 'computed from the queue' in why else ' - a handler that opens a delay block (or broadcasts) during the flush re-delivers '
+                  'the same messages or delivers the remaining ones out of order, nested in the current delivery'), where=where(f, lp))
 
 
 def rule_c(ctx, ix, hub):
